@@ -251,6 +251,13 @@ class Runner:
             if st != 'SUCCESS':
                 failed.append(dict(obligation=name, status=st, description=desc,
                                    location=r.get('sourceLocation', {}), trace=r.get('trace')))
+        has_fail = any(o_[1] == 'FAILURE' for o_ in obl)
+        if has_fail:
+            # obligations after a fatal failure (e.g. a pointer failure) are reported UNKNOWN by CBMC: they are consequences, drop them
+            failed = [f_ for f_ in failed if f_['status'] == 'FAILURE']
+            obl = [o_ for o_ in obl if o_[1] in ('SUCCESS', 'FAILURE')]
+            if sentinel == 'UNKNOWN':
+                sentinel = 'FAILURE'
         if any(o_[1] not in ('SUCCESS', 'FAILURE') for o_ in obl) or sentinel not in ('SUCCESS', 'FAILURE', None):
             # ERROR / UNKNOWN: the solver gave up (e.g. out of memory) - undecided, never a violation
             res['status'] = 'error'
@@ -463,13 +470,21 @@ def check_property(prop, tier, seed, keep=False, only=None):
             if r['status'] in ('error', 'timeout', 'vacuous'):
                 machinery.append('%s: %s: %s' % (u.name, r['status'], r['detail'][:600]))
                 continue
+            nrep = 0
             for fl in r['failed']:
                 k = is_known(known, prop, u.name, fl['obligation'])
                 if k:
                     known_hits.append((k, u, fl))
                     continue
+                nrep += 1
+                if nrep > 3:
+                    # more than three failing obligations in one unit: the first three are replayed, the rest are listed with them
+                    fl['replay'] = first_path; fl['native'] = 'not-replayed'
+                    continue
                 path, native = rn.make_replay(u, ginfos[u.group], fl, os.path.join(os.environ.get('VF_REPLAY_DIR', os.path.join(VERIF, 'replay', 'out')), prop))
                 fl['replay'] = path
+                if nrep == 1:
+                    first_path = path
                 fl['native'] = native.get('outcome')
                 suffix = '' if native.get('outcome') == 'confirmed' else ' no-failing-input-found'
                 lines.append('VIOLATION property=%s replay=%s [unit=%s obligation=%s native=%s]%s' % (
